@@ -323,6 +323,13 @@ def directed_cases(tier):
                  {"s": "write", "op": {"op": "w", "idx": 0, "len": 250, "cid": 0}, "expect": "ok"}, {"s": "close"}]
         steps += [{"s": "mismatch", "dir": 0, "param": pm} for pm in sorted(set(MISMATCH))] + [{"s": "read"}]
         out.append({"cfg": cfg, "ndirs": 1, "steps": steps, "env": {"pad": 0, "cwd": None, "keep_reader": False, "repeat": 1}})
+        # eighty sessions in a row in one process, each recording one file, with two dozen descriptors to spare: a session
+        # that leaves a handle behind makes a later one fail
+        steps = []
+        for j in range(80):
+            steps += [{"s": "open", "dir": 0, "start": b + 1000 * j, "salt": 9000 + j, "uuid": "sessL%d" % j, "mode": "later" if j else "first"},
+                      {"s": "write", "op": {"op": "w", "idx": 0, "len": 20, "cid": j}, "expect": "ok"}, {"s": "close"}]
+        out.append({"cfg": cfg, "ndirs": 1, "steps": steps + [{"s": "read"}], "env": {"pad": 0, "cwd": None, "keep_reader": False, "repeat": 1, "lowfd": True}})
         # ... and the emptied-properties variants as the FIRST attempt of the process on that channel (an earlier refused
         # attempt leaves the properties file open inside the HDF5 library, which then answers from memory)
         for pm in ("F+emptied-properties", "n+emptied-properties"):
@@ -479,8 +486,8 @@ def run_case(case, keep=None, on_tree=None):
         elif cwd_mode in ("rel", "rel-dot"):
             os.chdir(base)
         repeat = max(1, env.get("repeat", 1))
-        if repeat > 8:
-            # many refused calls with few descriptors to spare: a refusal that leaks a handle makes a later valid call fail
+        if repeat > 8 or env.get("lowfd"):
+            # many refused calls / many sessions with few descriptors to spare: a refusal that leaks a handle makes a later valid call fail
             import resource
             old_nofile = resource.getrlimit(resource.RLIMIT_NOFILE)
             nopen = len(os.listdir("/proc/self/fd"))
